@@ -17,6 +17,16 @@ impl Value {
     { unimplemented!() }
 }
 
+// real: CallData::{get_nargs,get_addr} (bit fields; round trip with CallData::new proved by Kani U4 enc.calldata)
+uninterp spec fn cd_nargs(c: CallData) -> u32;
+uninterp spec fn cd_addr(c: CallData) -> u32;
+impl CallData {
+    #[verifier::external_body]
+    fn get_addr(&self) -> (r: u32) ensures r == cd_addr(*self) { unimplemented!() }
+    #[verifier::external_body]
+    fn get_nargs(&self) -> (r: u32) ensures r == cd_nargs(*self) { unimplemented!() }
+}
+
 impl VmGreenThread {
     // real: vm.rs VmGreenThread::load_offset_or_top; contract proved by Kani U4.stack.load_offset_or_top
     #[verifier::external_body]
@@ -103,6 +113,45 @@ impl VmGreenThread {
         requires 0 <= old(self).stack_base + offset < old(self).value_stack@.len(),
         ensures
             final(self).value_stack@ == old(self).value_stack@.update(old(self).stack_base + offset, v),
+            frame_stack(*old(self), *final(self)),
+    { unimplemented!() }
+
+    // real: vm.rs VmGreenThread::pop_bool = pop().get_bool(self)
+    #[verifier::external_body]
+    pub fn pop_bool(&mut self) -> (r: bool)
+        requires old(self).value_stack@.len() > 0, tag_of(old(self).value_stack@.last()) == ValueTag::Bool,
+        ensures
+            r == bool_of(old(self).value_stack@.last()),
+            final(self).value_stack@ == old(self).value_stack@.drop_last(),
+            frame_stack(*old(self), *final(self)),
+    { unimplemented!() }
+
+    // real: push(x) with x of a concrete type (R3 typed): push_val o From
+    #[verifier::external_body]
+    pub fn push_int(&mut self, n: AbraInt)
+        ensures final(self).value_stack@ == old(self).value_stack@.push(val_int(n)), frame_stack(*old(self), *final(self)),
+    { unimplemented!() }
+    #[verifier::external_body]
+    pub fn push_float(&mut self, f: AbraFloat)
+        ensures final(self).value_stack@ == old(self).value_stack@.push(val_float(f)), frame_stack(*old(self), *final(self)),
+    { unimplemented!() }
+    #[verifier::external_body]
+    pub fn push_bool(&mut self, b: bool)
+        ensures final(self).value_stack@ == old(self).value_stack@.push(val_bool(b)), frame_stack(*old(self), *final(self)),
+    { unimplemented!() }
+    #[verifier::external_body]
+    pub fn push_addr(&mut self, a: ProgramCounter)
+        ensures final(self).value_stack@ == old(self).value_stack@.push(val_addr(a)), frame_stack(*old(self), *final(self)),
+    { unimplemented!() }
+    #[verifier::external_body]
+    pub fn push_sstr(&mut self, p: *mut StringObject)
+        ensures final(self).value_stack@ == old(self).value_stack@.push(val_sptr(p)), frame_stack(*old(self), *final(self)),
+    { unimplemented!() }
+    #[verifier::external_body]
+    pub fn store_offset_int(&mut self, offset: i16, v: AbraInt)
+        requires 0 <= old(self).stack_base + offset < old(self).value_stack@.len(),
+        ensures
+            final(self).value_stack@ == old(self).value_stack@.update(old(self).stack_base + offset, val_int(v)),
             frame_stack(*old(self), *final(self)),
     { unimplemented!() }
 
